@@ -46,6 +46,7 @@ ATOMS = [
     ("sib-call-default-explicit", "d(x, 2)"),
     ("sib-call-default-kw", "d(x, y=2)"),
     ("sib-call-kw-swapped", "d(y=2, x=x)"),
+    ("sib-call-kw-default-omitted", "d(x=x)"),
     ("sib-call-nondefault", "d(x, 3)"),
     ("sib-scalar-call", "s()"),
     ("sib-scalar-value", "_space.s.value"),
@@ -173,10 +174,10 @@ def C(path, c, args=(), kwargs=None, form="call"):
 TARGET_QUERIES = {
     "pos": [C("A", "t", (0,)), C("A", "t", (), {"x": 1}), C("A", "t", (2,), form="sub")],
     "default": [C("A", "t"), C("A", "t", (0,), form="sub"), C("A", "t", (), {"x": 2})],
-    "pos-default": [C("A", "t", (1,)), C("A", "t", (0, 3)), C("A", "t", (2,), {"y": 2})],
+    "pos-default": [C("A", "t", (1,)), C("A", "t", (0, 3)), C("A", "t", (), {"x": 2})],
     "scalar": [C("A", "t"), C("A", "t", form="value")],
 }
-HELPER_QUERIES = [C("A", "p", (30,)), C("A", "w", ("ab",)), C("A", "p", (1,)), C("A", "p", (3,), form="sub"), C("A", "d", (1,)), C("A", "d", (2, 3)),
+HELPER_QUERIES = [C("A", "p", (30,)), C("A", "w", ("ab",)), C("A", "p", (1,)), C("A", "p", (3,), form="sub"), C("A", "d", (1,)), C("A", "d", (2, 3)), C("A", "d", (), {"x": 0}),
                   C("A", "s", form="value"), C("A.Ch", "k", (), {"x": 1}), C("A.Ch", "ks"),
                   C("B", "q", (2,)), C("A.Ch", "p", (1,)), C("B", "p", (1,), form="sub"), C("B", "qs", form="value")]
 
@@ -203,6 +204,7 @@ def forms_of(pure, op):
         out.append(C(path, c, key[:n]))
         if n:
             out.append(C(path, c, key[:n], form="sub"))
+            out.append(C(path, c, (), dict(zip(names[:n], key[:n]))))
     return out
 
 
@@ -269,30 +271,31 @@ def deep_case(item):
 def run_case(item):
     if item[0] == "deep":
         sp, sig, tags, src = deep_case(item)
-        order = item[-1]
+    elif item[0] in ("dyn", "inh"):
+        return run_extra(item)
     else:
         sp, sig, tags, src = make_case(item)
-        order = item[-1]
-    out = {"key": (src, item[-3:] if item[0] != "deep" else item[3:]), "fails": [], "nontrivial": True,
-           "sample": {"formula": src, "order": order, "tags": tags}}
+    order = item[-1]
+    key = (src, item[-3:] if item[0] != "deep" else item[3:])
+    queries = reorder(TARGET_QUERIES[sig[0]] + HELPER_QUERIES, order)
+    return check_model(sp, tags, queries, list(CELLS_OF_TAG.values()), key, {"formula": src, "order": order, "tags": tags}, order)
+
+
+def check_model(sp, tags, queries, cells_list, key, sample, order):
+    out = {"key": key, "fails": [], "nontrivial": True, "sample": sample}
 
     def fail(kind, what, ops, tail, extra=()):
         out["fails"].append((tuple(tags) + (kind, "order:%d" % order) + tuple(extra), what, script(sp, ops, tail)))
 
-    pure = PureModel(sp)
-    queries = reorder(TARGET_QUERIES[sig[0]] + HELPER_QUERIES, order)
+    pure = PureModel(sp, copy=False)
 
-    # expectations from the uncached evaluator, query by query (each evaluated from scratch)
-    exp_vals, reach, failed = [], [], set()
+    # expectations from the uncached evaluator, query by query (each evaluated from scratch: it has no cache)
+    exp_vals, reach = [], []
     for q in queries:
-        p1 = PureModel(sp)
-        v = p1.query(q)
-        exp_vals.append(v)
-        reach.append(set(p1.ticks))
-        # elements whose run did not complete
-        p1b = PureModel(sp)
-        fl = _failed_elements(p1b, q)
-        failed |= fl
+        pure.reset_logs()
+        exp_vals.append(pure.query(q))
+        reach.append(set(pure.ticks))
+    failed = set(pure.failed)                # elements whose run did not complete
 
     run = MxRun(sp)
     try:
@@ -331,7 +334,8 @@ def run_case(item):
         held_exp = {}
         for tag, key in cum - failed:
             held_exp.setdefault(tag, set()).add(key)
-        for tag, (path, cname) in CELLS_OF_TAG.items():
+        for path, cname in cells_list:
+            tag = path + "." + cname
             c = run.obj(path + "." + cname)
             nparams = len(c.parameters)
             keys = set()
@@ -346,7 +350,7 @@ def run_case(item):
             pc = getattr(pure.space(path), cname)
             for kr in sorted(want):
                 key = eval(kr)
-                pv = PureModel(sp).query(C(path, cname, key))
+                pv = pure.query(C(path, cname, key))
                 try:
                     hv = c(*key)
                     inn = key in c
@@ -359,7 +363,7 @@ def run_case(item):
         if len(run.ticks) != nticks:
             fail("recomputed", "reading the held elements (iteration, len, in, call) ran formulas: %r" % (run.ticks[nticks:],), done,
                  "n = len(TICKS)\nfor c in (%s):\n    [c(*((k,) if len(c.parameters) == 1 else tuple(k))) for k in list(c)]\nif len(TICKS) != n:\n    sys.exit(1)"
-                 % ", ".join("m.%s.%s" % pc_ for pc_ in CELLS_OF_TAG.values()) )
+                 % ", ".join("m.%s.%s" % pc_ for pc_ in cells_list))
             return out
         # every binding form of every successful query denotes the same element
         for i, q in enumerate(queries):
@@ -379,23 +383,57 @@ def run_case(item):
         run.close()
 
 
-def _failed_elements(pm, q):
-    """Elements whose formula run ended with an exception in the uncached evaluation of q."""
-    failed = set()
-    orig = pm._eval
+# ------------------------------------------------------------------------------------------------ other namespaces
+# the same checks on cells that live in an ItemSpace (parameter > base's refs > global) and on derived cells
+# (names resolve in the SUB space, not in the space that defines the formula)
 
-    def ev(pc, key):
-        try:
-            return orig(pc, key)
-        except Exception:
-            failed.add((TAG_OF[(pc.space._path, pc.name)], repr(key)))
-            raise
-    pm._eval = ev
-    pm.query(q)
-    return failed
+DYN_ATOMS = [("item-param", "i"), ("item-base-ref", "k"), ("item-global-ref", "g"), ("item-sibling-call", "pc(x)"),
+             ("item-sibling-kw", "pc(x=x)"), ("item-space-sub", "_space.pc[x]"), ("item-self-via-model", "_model.P[i, h].pc(x)"),
+             ("item-other-item", "_model.P(i + 1, h).pc(x)"), ("item-outside-call", "_model.A.p(x)"),
+             ("item-param-shadows-global", "h"), ("item-recursion", "(t(x - 1) if x > 0 else i)")]
+INH_ATOMS = [("derived-own-ref-override", "r"), ("derived-ref-inherited", "r2"), ("derived-global", "g"),
+             ("derived-sibling-overridden", "p(x)"), ("derived-sibling-inherited", "p2(x)"),
+             ("derived-space-attr", "_space.r"), ("derived-model-path-to-base", "_model.Base.r"),
+             ("derived-model-path-to-base-cells", "_model.Base.p(x)"),
+             ("derived-recursion", "(t(x - 1) if x > 0 else r)")]
 
 
-TAG_OF = {v: k for k, v in CELLS_OF_TAG.items()}
+def run_extra(item):
+    kind, ai, ctxi, order = item
+    sp = Spec()
+    sp.ref("", "g", 7); sp.ref("", "h", 3)
+    ctx = CONTEXTS[ctxi]
+    if kind == "dyn":
+        a = DYN_ATOMS[ai]
+        b = DYN_ATOMS[(ai + 3) % len(DYN_ATOMS)]
+        expr = ctx[2].format(a="(" + a[1] + ")", b="(" + b[1] + ")")
+        sp.space("A"); sp.space("P", params=("i", "h"))
+        sp.ref("A", "r", 5); sp.ref("P", "k", 30)
+        sp.cell("A", "p", "def p(x):\n    TICK('A.p', (x,))\n    return 1 if x <= 0 else p(x - 1) + x")
+        sp.cell("P", "pc", "def pc(x):\n    TICK('P[%d, %d].pc' % (i, h), (x,))\n    return x * 10 + i + k")
+        src = "def t(x):\n    TICK('P[%d, %d].t' % (i, h), (x,))\n    return " + expr
+        sp.cell("P", "t", src)
+        queries = [C("P[1, 5]", "t", (1,)), C("P[2, 5]", "t", (2,), form="sub"), C("P[1, 5]", "pc", (1,)), C("P[1, 5]", "t", (), {"x": 0}),
+                   C("A", "p", (2,)), C("P[2, 5]", "pc", (2,)), C("P[3, 5]", "pc", (2,))]
+        cells_list = [("P[1, 5]", "t"), ("P[1, 5]", "pc"), ("P[2, 5]", "t"), ("P[2, 5]", "pc"), ("P[3, 5]", "pc"), ("A", "p")]
+    else:
+        a = INH_ATOMS[ai]
+        b = INH_ATOMS[(ai + 3) % len(INH_ATOMS)]
+        expr = ctx[2].format(a="(" + a[1] + ")", b="(" + b[1] + ")")
+        sp.space("Base"); sp.space("Sub", bases=["Base"])
+        sp.ref("Base", "r", 5); sp.ref("Base", "r2", 6); sp.ref("Sub", "r", 50)
+        tg = "_space.fullname[2:] + "
+        sp.cell("Base", "p", "def p(x):\n    TICK(%s'.p', (x,))\n    return x + r" % tg)
+        sp.cell("Base", "p2", "def p2(x):\n    TICK(%s'.p2', (x,))\n    return x * r + r2" % tg)
+        src = "def t(x):\n    TICK(%s'.t', (x,))\n    return %s" % (tg, expr)
+        sp.cell("Base", "t", src)
+        sp.cell("Sub", "p", "def p(x):\n    TICK(%s'.p', (x,))\n    return x + r + 1000" % tg, override=True)
+        queries = [C("Sub", "t", (1,)), C("Base", "t", (1,)), C("Sub", "p", (1,), form="sub"), C("Base", "p", (), {"x": 1}),
+                   C("Sub", "p2", (2,)), C("Base", "t", (2,)), C("Sub", "t", (), {"x": 2})]
+        cells_list = [("Sub", "t"), ("Base", "t"), ("Sub", "p"), ("Base", "p"), ("Sub", "p2"), ("Base", "p2")]
+    tags = ["atom:" + a[0], "ctx:" + ctx[0], "with:" + b[0], "skeleton:" + kind]
+    return check_model(sp, tags, reorder(queries, order), cells_list, (kind, src, order),
+                       {"formula": src, "order": order, "tags": tags}, order)
 
 
 def _tail_value(i, exp):
@@ -434,7 +472,7 @@ def enumerate_items(tier, rng):
     if tier == "quick":
         for ai in range(nA):
             for ci, ctx in enumerate(ctxs):
-                for j in range(3):
+                for j in range(2):
                     bi = (ai * 7 + ci * 3 + j * 17 + 1) % nA
                     sigi = (ai + ci + j) % len(SIGS)
                     items.append((sigi, ctx, ai, bi, bool((ai + ci + j) % 2), False, (ai + ci + j) % norders))
@@ -445,10 +483,15 @@ def enumerate_items(tier, rng):
                     sigi = (ai + bi + ci) % len(SIGS)
                     for o in ((ai + bi) % 6, (ai + bi + 3) % 6):
                         items.append((sigi, ctx, ai, bi, bool((ai + bi + ci) % 2), False, o))
+    for kind, atoms in (("dyn", DYN_ATOMS), ("inh", INH_ATOMS)):
+        for ai in range(len(atoms)):
+            for ci in ((0, 1, 3) if tier == "quick" else range(len(CONTEXTS))):
+                for o in range(norders):
+                    items.append((kind, ai, ci, o))
     random.Random(20261002).shuffle(items)        # fixed order: a run cut by the budget still spans every kind
     n_exh = len(items)
     # depth 3: sampled
-    ndeep = 600 if tier == "quick" else 12000
+    ndeep = 300 if tier == "quick" else 12000
     for i in range(ndeep):
         items.append(("deep", rng.randrange(1 << 30), rng.randrange(len(SIGS)), bool(rng.randrange(2)),
                       rng.randrange(norders)))
@@ -474,8 +517,7 @@ def run(res, tier, seed):
             res.fail(tags, what, script=scr, case=out["key"])
         if n % 997 == 1:
             res.sample(out["sample"])
-    if n < n_exh:
-        res.exhaustive = False
+    res.exhaustive = n >= n_exh
     res.notes.append("%d enumerated + %d sampled cases" % (min(n, n_exh), max(0, n - n_exh)))
 
 
